@@ -395,6 +395,16 @@ func (s *configurationStore) Watch(ctx context.Context, ch chan<- configapi.Conf
 			s.mu.Unlock()
 		}()
 
+		// every exit path closes ch and keeps draining eventCh: the store's event loop may already hold an
+		// event for this listener and must never block on a watcher that has gone
+		closeAndDrain := func() {
+			close(ch)
+			go func() {
+				for range eventCh {
+				}
+			}()
+		}
+
 		if options.replay {
 			if options.configurationID.Target.ID != "" {
 				entry, err := s.configurations.Get(ctx, getKey(options.configurationID))
@@ -407,11 +417,12 @@ func (s *configurationStore) Watch(ctx context.Context, ch chan<- configapi.Conf
 					configuration := entry.Value
 					configuration.Version = uint64(entry.Version)
 					if ctx.Err() != nil {
-						close(ch)
+						closeAndDrain()
 						return
 					}
 					if err := s.populate(ctx, configuration); err != nil {
 						log.Error(err)
+						closeAndDrain()
 						return
 					}
 					ch <- configapi.ConfigurationEvent{
@@ -423,7 +434,7 @@ func (s *configurationStore) Watch(ctx context.Context, ch chan<- configapi.Conf
 				entries, err := s.configurations.List(ctx)
 				if err != nil {
 					log.Error(err)
-					close(ch)
+					closeAndDrain()
 					return
 				}
 				for {
@@ -436,13 +447,14 @@ func (s *configurationStore) Watch(ctx context.Context, ch chan<- configapi.Conf
 						continue
 					}
 					if ctx.Err() != nil {
-						close(ch)
+						closeAndDrain()
 						return
 					}
 					configuration := entry.Value
 					configuration.Version = uint64(entry.Version)
 					if err := s.populate(ctx, configuration); err != nil {
 						log.Error(err)
+						closeAndDrain()
 						return
 					}
 					ch <- configapi.ConfigurationEvent{
@@ -458,11 +470,7 @@ func (s *configurationStore) Watch(ctx context.Context, ch chan<- configapi.Conf
 			case event := <-eventCh:
 				ch <- event
 			case <-ctx.Done():
-				close(ch)
-				go func() {
-					for range eventCh {
-					}
-				}()
+				closeAndDrain()
 				return
 			}
 		}
